@@ -123,9 +123,24 @@ fn parse_arg(tok: &str) -> Option<Arg> {
     }
 }
 
+/// every string carrier the API accepts must render the same bytes: the carrier is picked from the
+/// value (deterministic per op), the model knows nothing about carriers
+fn add_str(c: &mut Command, s: &str, salt: usize) -> Result<(), CommandError> {
+    use std::borrow::Cow;
+    match (s.len() + salt) % 7 {
+        0 => c.add_argument(s),
+        1 => c.add_argument(s.to_string()),
+        2 => c.add_argument(Cow::Borrowed(s)),
+        3 => c.add_argument(Cow::<str>::Owned(s.to_string())),
+        4 => c.add_argument(&s.to_string()),
+        5 => c.add_argument(&Cow::<str>::Owned(s.to_string())),
+        _ => c.add_argument(&&s),
+    }
+}
+
 fn add(c: &mut Command, a: &Arg) -> Result<(), CommandError> {
     match a {
-        Arg::S(s) => c.add_argument(s.as_str()),
+        Arg::S(s) => add_str(c, s.as_str(), 0),
         Arg::R(r) => c.add_argument(Raw(r.clone())),
     }
 }
@@ -197,12 +212,8 @@ pub fn exec(op: &[&str]) -> String {
             };
             let mut verdicts = Vec::new();
             for (i, a) in args.iter().enumerate() {
-                // the three string `Argument` impls in turn: str, String, Cow<str>
-                let r = match i % 3 {
-                    0 => c.add_argument(a.as_str()),
-                    1 => c.add_argument(a.clone()),
-                    _ => c.add_argument(std::borrow::Cow::Borrowed(a.as_str())),
-                };
+                // the string `Argument` carriers in turn: str, String, Cow (borrowed / owned), references
+                let r = add_str(&mut c, a.as_str(), i);
                 verdicts.push(verdict(&r));
             }
             let (mut conn, out) = connection();
